@@ -23,7 +23,8 @@ EXTENDS Integers, Sequences, FiniteSets, Json, TLC, SequencesExt
 
 CONSTANTS NOps,            \* number of serve operations (2 or 3)
           SharedScratch,   \* FALSE: the specified design
-          AllThirds        \* FALSE: third block = next kind; TRUE: every kind (thorough)
+          AllThirds,       \* FALSE: third block = next kind; TRUE: every kind (thorough)
+          NtcFirst3        \* kinds (positions) that lead a three-operation ntc history
 
 Ops == 1..NOps
 None == 0
@@ -88,7 +89,8 @@ NextKind(mode, k) == IF k = Len(Kinds) THEN (IF mode = "ntn" THEN 3 ELSE 1) ELSE
 B(k, sib) == [kind |-> Kinds[k], sib |-> sib]
 
 Pairs(mode) == {p \in KindsOf(mode) \X KindsOf(mode) : p[1] # p[2]}
-Thirds(mode) == {p \in KindsOf(mode) \X KindsOf(mode) : AllThirds \/ p[2] = NextKind(mode, p[1])}
+Firsts3(mode) == IF mode = "ntc" THEN NtcFirst3 ELSE KindsOf(mode)
+Thirds(mode) == {p \in Firsts3(mode) \X KindsOf(mode) : AllThirds \/ p[2] = NextKind(mode, p[1])}
 Assignments(mode) ==
     IF NOps = 2
     THEN {<<B(k, FALSE), B(k, TRUE)>> : k \in KindsOf(mode)} \cup              \* same era
